@@ -33,7 +33,10 @@ impl Display for Variable {
     fn fmt(&self, f: &mut std::fmt::Formatter<'_>) -> std::fmt::Result {
         match self {
             Variable::Variable(name) => {
-                if name.contains("_") {
+                // leading underscores belong to a simple variable (`__t`, `_c1`), only an
+                // inner underscore means this was written as an escaped compound name
+                let body = name.trim_start_matches('$').trim_start_matches('_');
+                if body.contains("_") {
                     //if it's a variable to be escaped
                     write!(f, "\\{}", name)
                 } else {
